@@ -55,7 +55,7 @@ def main():
 
     ev = copy.deepcopy(L); ev[0]['f'][0][1] = bump(ev[0]['f'][0][1])
     add('factor m->cm off by 1e-4', ev, {'Inverse', 'Transitive', 'Proportional'})
-    ev = copy.deepcopy(L); ev[0]['v'][2][3][1] = bump(ev[0]['v'][2][3][1])
+    ev = copy.deepcopy(L); ev[0]['v'][2][3][0] = bump(ev[0]['v'][2][3][0])
     add('one converted value off by 1e-4', ev, {'Proportional'})
     ev = copy.deepcopy(L); ev[0]['f'][4][4] = bump(ev[0]['f'][4][4])
     add('diagonal factor not 1', ev, {'Reflexive', 'Inverse', 'Transitive', 'Proportional'})
@@ -64,7 +64,14 @@ def main():
     add('num = 0 answered with the bare factor', ev, {'ZeroMapsToZero', 'Proportional'})
     ev = copy.deepcopy(L); ev[0]['ok'][1][5] = False
     add('one same-type conversion refused', ev, {'EveryTypedUnitAccepted'})
+    ev = copy.deepcopy(L); ev[0]['vp'][1][2] = bump(ev[0]['vp'][1][2])
+    add('positional call differs from keyword call', ev, {'PositionalIsKeyword'})
+    kh = [k for k, d in enumerate(L[0]['nums']) if d[1] > 150][0]
+    ev = copy.deepcopy(L); ev[0]['v'][3][1][kh] = bump(ev[0]['v'][3][1][kh])
+    add('value at num = 1e200 off by 1e-4', ev, {'Proportional'})
     iC, iF = T[0]['units'].index('C'), T[0]['units'].index('F')
+    ev = copy.deepcopy(T); ev[0]['vp'][iC][iF] = bump(ev[0]['vp'][iC][iF])
+    add('positional temperature call differs', ev, {'PositionalIsKeyword'})
     ev = copy.deepcopy(T); ev[0]['v'][iC][iF][2] = bump(ev[0]['v'][iC][iF][2], 1e-3)
     add('C->F value off by 1e-3', ev, {'AffineTemperature', 'Transitive'})
     ev = copy.deepcopy(T); ev[0]['rt'][iF][iC][1] = bump(ev[0]['rt'][iF][iC][1], 1e-3)
@@ -74,11 +81,11 @@ def main():
     k_cross = [i for i, t in enumerate(X[0]['vtypes']) if t not in ('', X[0]['utype'])][0]
     k_same = [i for i, t in enumerate(X[0]['vtypes']) if t == X[0]['utype']][0]
     k_unknown = [i for i, t in enumerate(X[0]['vtypes']) if t == ''][0]
-    ev = copy.deepcopy(X); ev[0]['refused'][k_cross] = False
-    add('a cross-type pair accepted', ev, {'CrossTypeRefused'})
-    ev = copy.deepcopy(X); ev[0]['refused'][k_same] = True
+    ev = copy.deepcopy(X); ev[0]['refused'][1][k_cross] = False
+    add('a cross-type pair accepted when num is omitted', ev, {'CrossTypeRefused'})
+    ev = copy.deepcopy(X); ev[0]['refused'][2][k_same] = True
     add('a same-type pair refused', ev, {'EveryTypedUnitAccepted'})
-    ev = copy.deepcopy(X); ev[0]['refused'][k_unknown] = False
+    ev = copy.deepcopy(X); ev[0]['refused'][0][k_unknown] = False
     add('an unknown unit accepted', ev, {'UnknownUnitRefused'})
 
     def tb(desc, expected, **sel):
@@ -100,28 +107,38 @@ def main():
         lambda e: e.update(g=bump(e['g'])))
     tb('unit typed under another quantity', {'TypeAgreesWithCatalogue', 'NoteDocumentedUnitTyped'}, ev='unit', name='lbs')(
         lambda e: e.update(type='pressure'))
-    tb('R(kJ/mol/K) off by 1e-4', {'RTable', 'NoteDocValue'}, ev='R', key='kJ/mol/K')(
+    tb('R(kJ/mol/K) off by 1e-4', {'KeywordIsPositional', 'RTable', 'NoteDocValue'}, ev='R', key='kJ/mol/K')(
         lambda e: e.update(val=bump(e['val'])))
-    tb('R(eV/K) off by 1e-4', {'RTable', 'NoteDocValue'}, ev='R', key='eV/K')(
+    tb('R(eV/K) off by 1e-4', {'KeywordIsPositional', 'RTable', 'NoteDocValue'}, ev='R', key='eV/K')(
         lambda e: e.update(val=bump(e['val'])))
-    tb('kb(J/K) off by 1e-4', {'KbTable', 'RisKbNa', 'NoteDocValue'}, ev='kb', key='J/K')(
+    tb('kb(J/K) off by 1e-4', {'KeywordIsPositional', 'KbTable', 'RisKbNa', 'NoteDocValue'}, ev='kb', key='J/K')(
         lambda e: e.update(val=bump(e['val'])))
-    tb('h(eV s) off by 1e-4', {'HTable', 'HBar', 'NoteDocValue'}, ev='h', key='eV s')(
+    tb('h(eV s) off by 1e-4', {'KeywordIsPositional', 'HBarFalseIsDefault', 'HTable', 'HBar', 'NoteDocValue'}, ev='h', key='eV s')(
         lambda e: e.update(val=bump(e['val'])))
-    tb('hbar(J s) off by 1e-4', {'HBar'}, ev='h', key='J s')(
+    tb('hbar(J s) off by 1e-4', {'HBar', 'HBarPositional'}, ev='h', key='J s')(
         lambda e: e.update(bar=bump(e['bar'])))
-    tb('c(cm/s) off by 1e-4', {'CTable', 'NoteDocValue'}, ev='c', key='cm/s')(
+    tb('c(cm/s) off by 1e-4', {'KeywordIsPositional', 'CTable', 'NoteDocValue'}, ev='c', key='cm/s')(
         lambda e: e.update(val=bump(e['val'])))
-    tb('P0(psi) off by 1e-4', {'P0FromSI', 'NoteDocValue'}, ev='acc', fn='P0', key='psi')(
+    tb('P0(psi) off by 1e-4', {'KeywordIsPositional', 'P0FromSI', 'NoteDocValue'}, ev='acc', fn='P0', key='psi')(
         lambda e: e.update(val=bump(e['val'])))
-    tb('T0(F) 77 -> 78', {'T0FromSI'}, ev='acc', fn='T0', key='F')(
+    tb('T0(F) 77 -> 78', {'KeywordIsPositional', 'T0FromSI'}, ev='acc', fn='T0', key='F')(
         lambda e: e.update(val=[78, 0]))
-    tb('V0(L) off by 1e-4', {'V0isRT0overP0', 'NoteDocValue'}, ev='acc', fn='V0', key='L')(
+    tb('V0(L) off by 1e-4', {'KeywordIsPositional', 'V0isRT0overP0', 'NoteDocValue'}, ev='acc', fn='V0', key='L')(
         lambda e: e.update(val=bump(e['val'])))
-    tb('m_e(g) off by 1e-3', {'MassFromTable', 'NoteDocValue'}, ev='acc', fn='m_e', key='g')(
+    tb('m_e(g) off by 1e-3', {'KeywordIsPositional', 'MassFromTable', 'NoteDocValue'}, ev='acc', fn='m_e', key='g')(
         lambda e: e.update(val=bump(e['val'], 1e-3)))
     tb('P0(kPa) raised', {'AccessorAcceptsTypedUnit', 'NoteDocumentedKeyAccepted'}, ev='acc', fn='P0', key='kPa')(
         lambda e: e.update(raised=True))
+    tb('R(units=key) differs from R(key)', {'KeywordIsPositional'}, ev='R', key='L bar/mol/K')(
+        lambda e: e.update(kwval=bump(e['kwval'])))
+    tb('m_p(units=key) raised', {'KeywordIsPositional'}, ev='acc', fn='m_p', key='lbs')(
+        lambda e: e.update(kwval=[0, 0]))
+    tb('h(key, bar=False) differs from h(key)', {'HBarFalseIsDefault'}, ev='h', key='Ha s')(
+        lambda e: e.update(barF=bump(e['barF'])))
+    tb('h(key, True) differs from h(key, bar=True)', {'HBarPositional'}, ev='h', key='kJ s')(
+        lambda e: e.update(barpos=bump(e['barpos'])))
+    tb('elementary charge off by 1e-4', {'ElementaryChargeIsJoulePerEV'}, ev='const', name='e')(
+        lambda e: e.update(val=bump(e['val'])))
     ev = copy.deepcopy(TB); del ev[find(ev, ev='const', name='Na')]
     add('the Na observation deleted', ev, {'AmountIsAvogadro', 'RTable', 'RisKbNa'})
 
@@ -158,6 +175,14 @@ def main():
     ev = copy.deepcopy(SP); ev[i]['e'] = bump(ev[i]['e'])
     add('debye_to_einstein off', ev, {'DebyeEinsteinDefinition'})
 
+    i = find(SP, ev='helper', kind='i64')
+    ev = copy.deepcopy(SP); ev[i]['after'][1][1] += 1
+    add('helper changed the caller array', ev, {'InputUntouched'})
+    ev = copy.deepcopy(SP); ev[i]['y'][2][0] += 1000
+    add('helper array result differs from scalar', ev, {'ArrayIsMapOfScalar'})
+    i = find(EL, ev='element', z=118)
+    ev = copy.deepcopy(EL); ev[i]['awS']['v'][0] += 1
+    add('weight of element 118 by symbol differs', ev, {'ElementLookupAgrees'})
     i = find(EL, ev='element', z=26)
     ev = copy.deepcopy(EL); ev[i]['awS']['v'][1] += 1
     add('weight of Fe by symbol differs in the 17th digit', ev, {'ElementLookupAgrees'})
@@ -186,7 +211,7 @@ def main():
         if b is None:
             b = 3 if any(e['ev'] == 'unit' for e in evs) else (5 if any(e['ev'] == 'element' for e in evs) else 4)
         new = {c for (_, c) in got.get(tid, set()) - got.get(b, set())}
-        ok = bool(new & expected) and new <= expected
+        ok = (bool(new & expected) or not expected) and new <= expected
         bad += 0 if ok else 1
         print('%-52s -> %-50s %s' % (desc, ','.join(sorted(new)) or '-', 'ok' if ok else 'UNEXPECTED (wanted %s)' % sorted(expected)))
     print('uncorrupted traces report: %s' % {keys[t]: sorted(c) for t, c in got.items() if t < len(keys)})
